@@ -89,7 +89,13 @@ func (o *UntypedRequestBinder) Bind(request *http.Request, routeParams RoutePara
 		}
 
 		if binder.validator != nil {
-			rr := binder.validator.Validate(target.Interface())
+			value := target.Interface()
+			if target.Kind() == reflect.String {
+				// formats bound to a named string type (uuid, email, uri, ...) are validated as the plain
+				// string they hold: the validators do not recognize the named types as strings.
+				value = target.String()
+			}
+			rr := binder.validator.Validate(value)
 			if rr != nil && rr.HasErrors() {
 				result = append(result, rr.AsError())
 			}
